@@ -18,9 +18,13 @@
 """
 from __future__ import annotations
 
+import copy
+import dataclasses
 import json
 import os
 import sys
+from datetime import timedelta
+from typing import Dict, List
 
 import yaml
 
@@ -28,7 +32,7 @@ from ..lib import common, tlc
 from ..lib.evidence import Report, machinery_failure
 from . import c02 as ty  # gamma / alpha / generators of the Types subsystem (also checks the import of jsonargparse)
 
-from jsonargparse import ArgumentError, ArgumentParser  # noqa: E402
+from jsonargparse import ArgumentError, ArgumentParser, Namespace  # noqa: E402
 
 PID = "C10"
 KEY = ty.KEY
@@ -51,10 +55,30 @@ def make_class(tp, default):
     return cls
 
 
+def make_dataclass(tp, default=dataclasses.MISSING):
+    """a dataclass with the single field  x: tp [= default]"""
+    global _CLASSES
+    _CLASSES += 1
+    if default is dataclasses.MISSING:
+        field = dataclasses.field()
+    elif isinstance(default, (list, dict, set)):
+        field = dataclasses.field(default_factory=lambda: default)
+    else:
+        field = dataclasses.field(default=default)
+    cls = dataclasses.make_dataclass(f"Data{os.getpid()}_{_CLASSES}", [("x", tp, field)])
+    cls.__module__ = __name__
+    globals()[cls.__name__] = cls
+    return cls
+
+
 def build(tp, d, style, enable_path=False):
     """-> (parser, key of the value, object to give to parse_object when the key itself is not given, argv for the same)"""
     if style == "plain":
         return ty.make_parser(tp, d, enable_path), KEY, {}, []
+    if style == "dataclass":
+        p = ArgumentParser(exit_on_error=False)
+        p.add_class_arguments(make_dataclass(tp, ty.gamma_val(d)), "c")
+        return p, "c.x", {}, []
     cls = make_class(tp, ty.gamma_val(d))
     p = ArgumentParser(exit_on_error=False)
     if style == "classargs":
@@ -78,27 +102,45 @@ def tree_of(stock, text, key):
         return {"k": "other", "v": f"{type(ex).__name__}: {ex}"[:80]}
 
 
-def observe_fix(parser, key, call):
+def restricted_instances(v, out=None):
+    """the numbers / texts in a real result that are instances of a restricted class (sub-classes of int / float / str)"""
+    out = [] if out is None else out
+    if type(v) in ty.RSTR_INV or type(v) in ty.RNUM_INV:
+        a = ty.alpha_val(v)
+        if a not in out:
+            out.append(a)
+    elif isinstance(v, (list, tuple, set, frozenset)):
+        for e in v:
+            restricted_instances(e, out)
+    elif isinstance(v, dict):
+        for e in v.values():
+            restricted_instances(e, out)
+    return out
+
+
+def observe_fix(parser, key, call, alpha=None):
     """one accepted parse (call() -> cfg) and what happens to its result afterwards"""
+    alpha = alpha or ty.alpha_val
     try:
         cfg = call()
     except Exception:
         return None  # rejected: nothing to re-parse (C02 compares the verdict)
     try:
-        first = ty.alpha_val(cfg[key])
+        first = alpha(cfg[key])
     except ty.NotAbstractable as ex:
         return {"error": f"result outside the model: {ex}"}
-    o = {"kind": "fix", "first": first, "vok": True, "sok": True, "second": dict(NONE), "rok": True, "dsame": True, "jrok": True, "jdsame": True,
-         "draised": False, "jdraised": False, "ser": dict(NONE), "ser2": dict(NONE), "jser": dict(NONE), "jser2": dict(NONE), "notes": {}}
+    o = {"kind": "fix", "first": first, "inst": restricted_instances(cfg[key]) if alpha is ty.alpha_val else [], "vok": True, "sok": True, "second": dict(NONE), "rok": True, "dsame": True, "jrok": True, "jdsame": True,
+         "draised": False, "jdraised": False, "ser": dict(NONE), "ser2": dict(NONE), "jser": dict(NONE), "jser2": dict(NONE),
+         "after": first, "tok": True, "third": first, "notes": {}}
     try:
-        parser.validate(cfg.clone())
+        parser.validate(copy.deepcopy(cfg))  # (clone() shares tuples: a leak would reach cfg)
     except Exception as ex:
         o["vok"] = False
         o["notes"]["validate"] = f"{type(ex).__name__}: {str(ex)[:200]}"
     try:
-        again = parser.parse_object(cfg.clone())
+        again = parser.parse_object(copy.deepcopy(cfg))
         try:
-            o["second"] = ty.alpha_val(again[key])
+            o["second"] = alpha(again[key])
         except ty.NotAbstractable as ex:
             o["second"] = {"k": "other", "v": str(ex)}
         o["notes"]["py_eq"] = bool(again == cfg)
@@ -108,7 +150,7 @@ def observe_fix(parser, key, call):
     for fmt, rk, dk, sk in (("yaml", "rok", "dsame", "ser"), ("json", "jrok", "jdsame", "jser")):
         stock = yaml.safe_load if fmt == "yaml" else json.loads  # the dumped tree, read by a stock loader
         try:
-            d1 = parser.dump(cfg.clone(), format=fmt)
+            d1 = parser.dump(copy.deepcopy(cfg), format=fmt)
         except Exception as ex:
             o[rk] = o[dk] = False
             o["draised" if fmt == "yaml" else "jdraised"] = True
@@ -128,6 +170,23 @@ def observe_fix(parser, key, call):
         except Exception as ex:
             o[rk] = o[dk] = False
             o["notes"][fmt] = f"dump {d1!r}: {type(ex).__name__}: {str(ex)[:200]}"
+    # ... and once more as a SEQUENCE on the one object: validate(cfg); dump(cfg); cfg must be what it was and still a fixed point
+    try:
+        parser.validate(cfg)
+        parser.dump(cfg)
+    except Exception as ex:
+        o["notes"]["sequence"] = f"{type(ex).__name__}: {str(ex)[:160]}"  # (the clauses above already tell)
+    try:
+        o["after"] = alpha(cfg[key])
+    except Exception as ex:
+        o["after"] = {"k": "other", "v": f"{type(ex).__name__}: {ex}"[:80]}
+    try:
+        o["third"] = alpha(parser.parse_object(cfg)[key])
+    except ty.NotAbstractable as ex:
+        o["third"] = {"k": "other", "v": str(ex)}
+    except Exception as ex:
+        o["tok"] = False
+        o["notes"]["third"] = f"{type(ex).__name__}: {str(ex)[:200]}"
     return o
 
 
@@ -166,14 +225,15 @@ def _work(job):
         if ty.canon(ty.alpha_type(tp)) != ty.canon(t):
             return {"t": t, "error": "typing changed the hint"}
         parser = ty.make_parser(tp, d)
-        fparser = None
+        fparser = dparser = eparser = None
+        special = bool(ty.kinds_in(t) & set(ty.DEFLEAF))  # restricted / registered types: also as a dataclass field, from the environment, from a config
     except Exception as ex:
         return {"t": t, "error": f"add_argument: {type(ex).__name__}: {ex}"}
     out = []
     for x in xs:
         rows = []
         if x["k"] == "absent":  # the key is not given: the default is filled in
-            for style in ("plain", "classargs", "subclass"):
+            for style in ("plain", "classargs", "dataclass", "subclass"):
                 try:
                     p, key, obj, argv = build(tp, d, style)
                 except Exception as ex:
@@ -188,6 +248,26 @@ def _work(job):
             for ch in chans(x, quick):
                 call = (lambda x=x: parser.parse_object({KEY: ty.gamma_val(x)})) if ch == "obj" else (lambda x=x: parser.parse_args([f"--{KEY}={x['v']}"]))
                 rows.append((ch, observe_fix(parser, KEY, call), {"absent": False, "norm": True, "x": x}))
+            if special and rows[0][1] is not None:
+                try:
+                    if dparser is None:
+                        dparser = ArgumentParser(exit_on_error=False)
+                        dparser.add_class_arguments(make_dataclass(tp), "c")
+                    rows.append(("dc/obj", observe_fix(dparser, "c.x", lambda x=x: dparser.parse_object({"c": {"x": ty.gamma_val(x)}})), {"absent": False, "norm": True, "x": x}))
+                    if x["k"] == "str":
+                        eparser = eparser or ty.make_parser(tp, d, default_env=True, env_prefix="APP")
+
+                        def from_env(text=x["v"]):
+                            os.environ["APP_" + KEY.upper()] = text  # forked worker: the environment of the harness is not touched
+                            try:
+                                return eparser.parse_args([])
+                            finally:
+                                del os.environ["APP_" + KEY.upper()]
+
+                        rows.append(("env", observe_fix(eparser, KEY, from_env), {"absent": False, "norm": True, "x": x}))
+                        rows.append(("cfg", observe_fix(parser, KEY, lambda x=x: parser.parse_string(yaml.safe_dump({KEY: x["v"]}))), {"absent": False, "norm": True, "x": x}))
+                except Exception as ex:
+                    rows.append(("dc/obj", {"error": f"extra channels: {type(ex).__name__}: {str(ex)[:160]}"}, {}))
             if x["k"] == "dict" and x["v"] and rows[0][1] is not None and jsonable(x):  # an accepted dict also from a config file given to an enable_path argument
                 try:
                     fparser = fparser or ty.make_parser(tp, d, enable_path=True)
@@ -204,11 +284,68 @@ def _work(job):
     return {"t": t, "out": out}
 
 
+# ---------------------------------------------------------------- class-typed options (opaque for the Alg layer: classes are C14's)
+@dataclasses.dataclass
+class Inner:
+    a: int = 1
+    e: ty.E = ty.E.B
+
+
+class Base:
+    pass
+
+
+class Sub1(Base):
+    def __init__(self, e: ty.E = ty.E.A, t: timedelta = timedelta(days=1), n: int = 0):
+        pass
+
+
+class Sub2(Base):
+    def __init__(self, inner: Inner = Inner(a=2), es: List[ty.E] = (ty.E.A,)):
+        pass
+
+
+def alpha_any(v):
+    """like alpha_val, with Namespaces (kind ns) kept apart from dicts"""
+    if isinstance(v, Namespace):
+        return {"k": "ns", "v": [[{"k": "str", "v": str(k)}, alpha_any(x)] for k, x in vars(v).items()]}
+    if type(v) is dict:
+        return {"k": "dict", "v": [[alpha_any(k), alpha_any(x)] for k, x in v.items()]}
+    if type(v) is list:
+        return {"k": "list", "v": [alpha_any(e) for e in v]}
+    if type(v) is tuple:
+        return {"k": "tuple", "v": [alpha_any(e) for e in v]}
+    try:
+        return ty.alpha_val(v)
+    except ty.NotAbstractable as ex:
+        return {"k": "other", "v": str(ex)}
+
+
+def opaque_jobs():
+    s1 = {"class_path": f"{__name__}.Sub1", "init_args": {"e": "B", "t": "25:00:00", "n": "3"}}
+    s1d = {"class_path": f"{__name__}.Sub1"}
+    s2 = {"class_path": f"{__name__}.Sub2", "init_args": {"inner": {"a": 3, "e": "A"}, "es": ["A", "B"]}}
+    return [("Base", [s1, s1d, s2]), ("List[Base]", [[s1], [s1, s2], [s2, s1d], []]), ("Dict[str,List[Base]]", [{"x": [s1, s2]}, {"x": [s1d], "y": [s2, s1]}])]
+
+
+def _work_opaque(job):
+    label, values = job
+    tp = {"Base": Base, "List[Base]": List[Base], "Dict[str,List[Base]]": Dict[str, List[Base]]}[label]
+    parser = ty.make_parser(tp)
+    out = []
+    for val in values:
+        for ch in ("obj", "arg"):
+            call = (lambda: parser.parse_object({KEY: json.loads(json.dumps(val))})) if ch == "obj" else (lambda: parser.parse_args([f"--{KEY}={json.dumps(val)}"]))
+            out.append((ch, val, observe_fix(parser, KEY, call, alpha=alpha_any)))
+    return {"label": label, "out": out}
+
+
 DUMP_KEYS = {"setOrder": "set-order", "reparseShift": "reparse-first-match-shift", "jsonKeyCollision": "json-key-collision", "firstMatch": "union-first-match",
              "leftTuple": "tuple-left-unserialised", "serLenient": "serialize-lenient-member", "setListing": "set-listing-order",
              "serCollision": "set-written-with-duplicates", "yamlFloatStr": "yaml-float-string", "inPlace": "reparse-union-in-place",
              "leftObject": "enum-member-first-leaves-object", "leftSet": "enum-member-first-leaves-set", "rawDefault": "raw-default", "noneOverDefault": "none-over-default",
-             "excLeak": "reparse-union-vals-last", "origNested": "reparse-union-orig-nested", "litEq": "reparse-literal-eq", "dictKey": "reparse-dict-key"}
+             "origNested": "reparse-union-orig-nested", "litEq": "reparse-literal-eq", "dictKey": "reparse-dict-key",
+             "leftInstance": "restricted-instance-left"}
 
 
 def main(argv):
@@ -239,6 +376,10 @@ def main(argv):
     vocab = [p for p in mc.printed if isinstance(p, dict) and "vocabulary" in p]
     if not cases or not vocab or not types or not absent or any(not c["aok"] for c in cases):
         machinery_failure(PID, f"TLC printed {len(types)} types, {len(cases)} accepted cases, {len(absent)} absent cases, {len(vocab)} vocabularies")
+    tdefs = [p for p in mc.printed if isinstance(p, dict) and "typedefs" in p]
+    if not tdefs:
+        machinery_failure(PID, "TLC did not print the definitions of the restricted / registered types")
+    ty.install_typedefs(tdefs[0]["typedefs"])
     ty.TEXTS = sorted({row[0] for row in vocab[0]["vocabulary"]} | ty.FIXED_WORDS)
 
     by_type = {}
@@ -282,6 +423,17 @@ def main(argv):
                 stats["by_channel"][ch] = stats["by_channel"].get(ch, 0) + 1
                 if o["first"]["k"] in ("list", "tuple", "set", "dict", "enum", "path") or t["k"] == "union" or how["absent"]:
                     rep.note_nontrivial(ty.canon(t) + "|" + ty.canon(d) + "|" + ch + "|" + ty.canon(o["first"]))
+    for r in ty.run_jobs(opaque_jobs(), work=_work_opaque):
+        for ch, val, o in r["out"]:
+            if o is None or "error" in o:
+                rep.violation(f"class-spec:not-parsed:{r['label']}:{ch}", f"{r['label']}: the sub-class specs {val} are not accepted ({o})", {"value": val})
+                continue
+            notes = o.pop("notes")
+            o.update({"kind": "opq", "t": {"k": "class", "v": [{"k": "name", "v": r["label"]}]}, "d": dict(NONE), "absent": False, "norm": True, "x": dict(NONE)})
+            obs.append(o)
+            meta.append({"x": dict(NONE), "chan": ch, "notes": notes, "src": "class-spec", "value": val})
+            stats["by_channel"]["class-spec/" + ch] = stats["by_channel"].get("class-spec/" + ch, 0) + 1
+            rep.note_nontrivial(r["label"] + "|" + ch + "|" + ty.canon(o["first"]))
     if stats.get("harness_errors"):
         stats["harness_error_samples"] = stats["harness_error_samples"][:5]
     stats["observations_model"] = sum(1 for m in meta if m["src"] == "model")
@@ -299,7 +451,7 @@ def main(argv):
             continue
         m = meta[n]
         t = o["t"]
-        how = describe(o, m)
+        how = describe(o, m) if o["kind"] != "opq" else f"add_argument('--k', type={o['t']['v'][0]['v']}) given {m['value']} ({m['chan']})"
         info = {"type": ty.type_str(t), "t": t, "d": o["d"], "x": m["x"], "channel": m["chan"], "python": how, "observation": o, "notes": m["notes"],
                 "failed_clauses": cl, "source": m["src"]}
         where = f"{ty.type_str(t)}:{m['chan']}:{ty.canon(ty.norm(o['first']))[:60]}"
@@ -307,8 +459,34 @@ def main(argv):
         if not ref:
             rep.add_drift("real code is a fixed point as the property says, but not as the Alg transcription predicts", info)
             continue
+        if o["kind"] == "opq":
+            for c in ref:
+                if c == "ref/dumpjson/other" and "Namespace is not JSON serializable" in str(m["notes"].get("json")):
+                    # Namespace.as_dict converts the specs one container deep only (_namespace.py:221-224)
+                    rep.violation(f"class-spec:json-dump-namespace-two-deep:{o['t']['v'][0]['v']}:{m['chan']}", f"{o['t']['v'][0]['v']} given {m['value']} ({m['chan']}): dump(cfg, format='json') raises "
+                                  f"{m['notes']['json']} (the yaml dump of the same configuration works)", info)
+                    continue
+                rep.violation(f"class-spec:{c[4:]}:{o['t']['v'][0]['v']}:{m['chan']}", f"{o['t']['v'][0]['v']} given {m['value']} ({m['chan']}): {c[4:]} fails -- first {ty.canon(o['first'])[:300]}, "
+                              f"second {ty.canon(o['second'])[:200]}, after dump on the same object {ty.canon(o['after'])[:300]}; {m['notes']}", info)
+            continue
         for c in ref:
-            if c == "ref/validate":
+            if c == "ref/after-dump/as-alg/+dumpLeak":
+                rep.violation(f"dump-changes-config:dump-leak/as-alg:{where}", f"{how}: after validate(cfg) and dump(cfg) the configuration itself holds {ty.canon(o['after'])[:300]} instead of "
+                              f"{ty.gamma_repr(o['first'])}; named deviation dumpLeak of spec/Types.tla", info)
+            elif c.startswith("ref/after-dump"):
+                rep.violation(f"dump-changes-config/other:{where}", f"{how}: after validate(cfg) and dump(cfg) the configuration itself holds {ty.canon(o['after'])[:300]} instead of {ty.gamma_repr(o['first'])}", info)
+            elif c == "ref/third/as-alg/+dumpLeak":
+                rep.violation(f"dump-changes-config:dump-leak/as-alg:{where}", f"{how}: after validate(cfg) and dump(cfg) the configuration itself holds {ty.canon(o['after'])[:300]} instead of "
+                              f"{ty.gamma_repr(o['first'])}, and parse_object of it gives " + (ty.canon(o["third"])[:300] if o["tok"] else "an error: " + str(m["notes"].get("third")))
+                              + "; named deviation dumpLeak of spec/Types.tla", info)
+            elif c.startswith("ref/third/as-alg/"):
+                for d_ in sorted(x_ for x_ in c.split("/as-alg/")[1].split("+") if x_):
+                    rep.violation(f"second-parse:{ty.DEV_KEYS.get(d_, DUMP_KEYS.get(d_, d_))}/as-alg:{where}", f"{how}: parse_object of the result {ty.gamma_repr(o['first'])} after a dump gives "
+                                  + (ty.canon(o["third"]) if o["tok"] else "an error: " + str(m["notes"].get("third"))) + f"; named deviation {d_} of spec/Types.tla", info)
+            elif c.startswith("ref/third"):
+                rep.violation(f"parse-after-dump/other:{where}", f"{how}: parse_object of the result {ty.gamma_repr(o['first'])} after validate(cfg) and dump(cfg) on the same object gives "
+                              + (ty.canon(o["third"]) if o["tok"] else "an error: " + str(m["notes"].get("third"))), info)
+            elif c == "ref/validate":
                 rep.violation(f"validate-rejects-result:{where}", f"{how}: validate() rejects the parse result {ty.gamma_repr(o['first'])}: {m['notes'].get('validate')}", info)
             elif c.startswith("ref/second/as-alg/"):
                 for d_ in sorted(x_ for x_ in c.split("/as-alg/")[1].split("+") if x_):
@@ -353,8 +531,12 @@ def describe(o, m) -> str:
     if o["absent"]:
         style, c = ch.split("/")
         decl = {"plain": f"add_argument('--k', type={ty.type_str(t)}{dflt})", "classargs": f"add_class_arguments(C, 'c') with C.__init__(self, x: {ty.type_str(t)} = {ty.gamma_repr(d)})",
+                "dataclass": f"add_class_arguments(D, 'c') with the dataclass D(x: {ty.type_str(t)} = {ty.gamma_repr(d)})",
                 "subclass": f"add_argument('--c', type=C) with C.__init__(self, x: {ty.type_str(t)} = {ty.gamma_repr(d)}), given only the class_path"}[style]
         return f"{decl}; {'parse_object' if c == 'obj' else 'parse_args'} without the key"
+    if ch in ("dc/obj", "env", "cfg"):
+        return (f"{ty.type_str(t)} with input {ty.gamma_repr(m['x'])} " + {"dc/obj": "as the field x of a dataclass given to add_class_arguments (parse_object)",
+                "env": "from the environment variable APP_K (default_env=True)", "cfg": "from the config text 'k: <value>' (parse_string)"}[ch])
     if ch.startswith("file/"):
         return (f"add_argument('--k', type={ty.type_str(t)}{dflt}, enable_path=True); a config file holding {ty.gamma_repr(m['x'])} given by name through "
                 f"{'parse_object' if ch.endswith('obj') else 'parse_args'}")
